@@ -1291,6 +1291,19 @@ func main() {
 		cases = append(cases, w0.callbackCase(f, k))
 	}
 
+	// provider configuration must not widen the e-mail rule: google hosted domain set, e-mail
+	// inside the hosted domain but outside the configured rule (and one inside both)
+	for _, hc := range []struct {
+		w     *world
+		email string
+	}{{worlds[6], "bob@example.com"}, {worlds[6], "alice@example.com"}, {worlds[4], "carol@other.org"}, {worlds[8], "eve@example.com"}, {worlds[3], "bob@example.com"}} {
+		for _, slug := range slugs {
+			s := fresh
+			s.Email = hc.email
+			cases = append(cases, hc.w.signInCase(f, siCase{nil, slug, okReq, cookieIn{Kind: "cookie", S: s}, okRefresh, okValidate}))
+			cases = append(cases, hc.w.callbackCase(f, cbCase{Slug: slug, Method: "GET", Code: "c1", StateKind: "genuine", CookieK: "genuine", RedirOK: true, Email: hc.email, RedeemSt: 200}))
+		}
+	}
 	for mode := 0; mode < 5; mode++ {
 		for k := 0; k < 4; k++ {
 			cases = append(cases, worlds[k%3].batchCase(f, r, mode))
